@@ -200,6 +200,28 @@ func main() {
 
 	// ---- 2. every slot tag and every control key built from it -------------------------
 	if r.WantCase("slottags") {
+		guard("slottags", slotTags)
+	}
+	// ---- 3. PRNG families ------------------------------------------------------------
+	prngFamilies()
+	r.Assume("choseKeyInSlots is unexported and has no hook: covered only through redis.KeyToSlot on the key family it evaluates (checkpoint-suffix)")
+	r.Assume("cluster-client routing is observed at cluster.GetSlot, the function getNodeByKey calls; the node a command is sent to is C19's concern")
+	r.Exit()
+}
+
+// guard turns a panic of the code under test into an inconclusive verdict (the statement
+// does not speak about crashes); violations recorded before it are kept.
+func guard(caseKey string, fn func()) {
+	defer func() {
+		if e := recover(); e != nil {
+			r.Inconclusive("panic while running case %s: %v", caseKey, e)
+		}
+	}()
+	fn()
+}
+
+func slotTags() {
+	{
 		names := []string{checkpoint.BisyncCheckpointKeyPrefix + ":0123456789abcdef01234567", config.CheckpointKey, "cp"}
 		if n, err := checkpoint.NewBisyncCheckpointName(); err == nil {
 			r.Sample(map[string]any{"generated_checkpoint_name": n})
@@ -249,10 +271,11 @@ func main() {
 		}
 		r.Set("slot_tags_distinct", len(tags))
 	}
+}
 
-	// ---- 3. PRNG families ------------------------------------------------------------
-	nRandom := r.N(200000, 20000000)
+func prngFamilies() {
 	workers := runtime.GOMAXPROCS(0)
+	nRandom := r.N(200000, 20000000)
 	const chunk = 2000
 	nChunks := (nRandom + chunk - 1) / chunk
 	harness.Parallel(nChunks, workers, func(ci int) {
@@ -261,6 +284,11 @@ func main() {
 			return
 		}
 		rng := r.Rand(ck)
+		defer func() {
+			if e := recover(); e != nil {
+				r.Inconclusive("panic while running case %s: %v", ck, e)
+			}
+		}()
 		for i := 0; i < chunk; i++ {
 			var key []byte
 			fam := ""
@@ -367,7 +395,4 @@ func main() {
 		checkKey("long", ck, key)
 	})
 
-	r.Assume("choseKeyInSlots is unexported and has no hook: covered only through redis.KeyToSlot on the key family it evaluates (checkpoint-suffix)")
-	r.Assume("cluster-client routing is observed at cluster.GetSlot, the function getNodeByKey calls; the node a command is sent to is C19's concern")
-	r.Exit()
 }
